@@ -33,6 +33,11 @@ SOURCES = {
  "longstr": b'var s = "' + b"abcdefghij" * 30 + b'"\nprint s\n',
  "manylines": b"".join(b"var v%d = %d\n" % (i, i) for i in range(120)) + b"print v119 + v0\nprint v5 / 0\n",
  "empty": b"",
+ # files whose LAST byte is a line-table entry on a varint size-class boundary
+ "lastlf240": b"print 42 #" + b"x" * 230 + b"\n",
+ "lastlf241": b"print 42 #" + b"x" * 231 + b"\n",
+ "lastlf2287": b"print 42 #" + b"x" * 2277 + b"\n",
+ "lastlf2288": b"print 42 #" + b"x" * 2278 + b"\n",
 }
 
 # hand-assembled per the documented format: (name, code, consts, positions, lfs)
